@@ -377,6 +377,35 @@ def run_shard(ctx):
         args = {k: v for k, v in gen_args(rng).items() if k in ("output_mode", "group_by_type")}
         check_case(ctx, {"gen": "cross_script", "a": a.replace("{n}", n), "b": b.replace("{n}", n).replace("{alter}", alt), "args": args})
         ctx.obs["cross_script_self_contained_pairs"] += 1
+    # (2b'') "in another process": the same default call in a fresh interpreter whose FIRST parser object was built (not run) with rarely used
+    #        constructor options - logging / module-level configuration fixed by the first object may not reach the result of a later one
+    import json as _json
+    import shutil as _shutil
+    import subprocess
+    import sys
+    code = ("import json, sys\nfrom simple_ddl_parser import DDLParser\nfirst, ddl, kw = json.loads(sys.stdin.read())\n"
+            "if first is not None:\n    DDLParser('CREATE TABLE first_t (a int);', **first)\n"
+            "try:\n    out = ['ok', DDLParser(ddl).run(**kw)]\nexcept Exception as e:\n    out = ['exc', type(e).__name__, str(e)[:200]]\nprint('VFRESULT' + json.dumps(out))\n")
+    firsts = [{"log_level": 10}, {"log_level": "DEBUG"}, {"debug": True}, {"silent": False}, {"normalize_names": True}, {"log_level": 50}]
+    for j in range(ctx.budget(16, 160)):
+        ddl = gen_script(rng)
+        kw = {k: v for k, v in gen_args(rng).items() if k in ("output_mode", "group_by_type")}
+        outs = []
+        for first in (None, firsts[(j + ctx.shard) % len(firsts)]):
+            d = tempfile.mkdtemp(prefix="vf_c14p_")
+            try:
+                r = subprocess.run([sys.executable, "-B", "-c", code], input=_json.dumps([first, ddl, kw]), capture_output=True, text=True, timeout=120, env=dict(os.environ), cwd=d)
+            finally:
+                _shutil.rmtree(d, ignore_errors=True)
+            lines = [l for l in r.stdout.splitlines() if l.startswith("VFRESULT")]
+            outs.append(_json.loads(lines[-1][len("VFRESULT"):]) if lines else None)
+        ctx.evaluated(2)
+        ctx.obs["fresh_interpreter_pairs"] += 1
+        if outs[0] is None or outs[1] is None:
+            ctx.inconclusive_because("fresh-interpreter pair produced no result")
+        elif outs[0] != outs[1]:
+            ctx.violation("depends_on_first_object_of_the_process", {"gen": "fresh_pair", "ddl": ddl, "args": kw, "first_ctor": firsts[(j + ctx.shard) % len(firsts)]},
+                          {"first_object_ctor": firsts[(j + ctx.shard) % len(firsts)], "alone": short(outs[0], 300), "after_first_object": short(outs[1], 300)})
     # (2c) the command line entry point with --no-dump, for one file and for a directory
     for j in range(ctx.budget(24, 400)):
         files = {n: gen_script(rng) for n in rng.sample(["a.sql", "b.ddl", "c.hql", "notes.txt", "d.bql"], rng.randint(1, 3))}
